@@ -21,6 +21,25 @@ CHECKS = {
  "C19": ("S", "HyperTuner.execute/resolve on the simulated fork pool with a scripted optimizer that reports every run from inside the simulated workers: exactly-once per (grid point, trial) with that point's parameters, table contents, mean-optimal selection in the task's direction, resolve parameters; also after an earlier execute() on the same tuner.", "7 C19"),
  "C20": ("S", "Multitask on nested simulated pools with scripted optimizers/tasks of distinct classes: (algorithm, task, mode, trial) exactly-once matrix for all documented shapes of modes, rejection of unknown modes, table shape with row k = trial k, export files under a simulated clock; optimizer objects may have been used stand-alone in another mode before.", "7 C20"),
 }
+
+EXTRA = {
+ "C01": " Also: tasks with 33-257 variables, shrunken problems (2-8 agents), results obtained through HyperTuner.resolve() and as Multitask trials, histories on the same instance / process (other configuration, pooled earlier runs, one Task object re-declared in place).",
+ "C02": " Also: objectives that read user-side module state changed between the runs of a history (fork semantics: a worker process forked earlier keeps the old value), numpy.float64-returning objectives, results through HyperTuner / Multitask.",
+ "C03": " Also on results obtained through HyperTuner.execute()+resolve() and as Multitask trials.",
+ "C04": " Scripted histories also run on used, re-configured instances; the observational part includes boundary parameter values and shrunken problems (degenerate dynamics).",
+ "C05": " Also: one Task object re-declared in place between runs, earlier runs under another configuration, tasks with hundreds of variables.",
+ "C06": " Also: task classes defined after earlier runs (a worker process forked before cannot unpickle them: fork-aware pool model), earlier pooled runs of the same kind and size, results through HyperTuner / Multitask, tasks with 33-257 variables.",
+ "C07": " A sample of cases also launches the seeded serial runs as trials of Multitask.execute() and compares every trial with the plain run.",
+ "C08": " Earlier runs may have used thread / process mode, the caller may have edited the earlier result in place; objectives that are exactly zero on a region.",
+ "C09": " The observational part includes shrunken problems and the crash sweep raises typed exceptions.",
+ "C10": " Also after re-configuration of a used instance from a larger / smaller / equal population.",
+ "C11": " All nine task families; fork semantics for module-level / class-level state (each simulated worker gets a copy at fork); workers of one pool must not evaluate the same first points (probability bound 1e-12 under independent draws).",
+ "C12": " 10 % of the cases give the direction as the plain string 'max' after construction.",
+ "C15": " A result kept from an earlier run must be unchanged after the later runs (same instance, shared configuration object, same process).",
+ "C17": " Odd and shrunken population sizes weighted up; value-dependent slowness fault (evaluations of good points complete last).",
+ "C19": " 15 % of the cases tune any of the 84 exported optimizers over 1-2 of its own parameters on a seeded task: every trial of every grid point must equal, exactly, the run of a freshly constructed optimizer with that point's parameters.",
+ "C20": " 15 % of the cases inject one typed objective failure (TypeError, AttributeError, PicklingError, ...): every run that was started must have been started in its designated mode.",
+}
 NOT_BUILT = {}
 NA = {
  "C13": "pure functions of their arguments (randomize/correct/decode/get_bounds, validators): no schedule, clock, fault, interleaving or call history in the statement, so deterministic simulation has nothing to decide; small-scope/property-based testing is the right family",
@@ -37,7 +56,7 @@ def main():
             "evidence_file": f"evidence/{pid}.json",
             "replay_cmd_template": f"./check {pid} --replay {{path}}",
             "engine": {"G": "engine-G", "P": "engine-P", "S": "engine-S"}[eng[0]],
-            "level_claimed": {"category": "exploration", "text": text, "design_ref": f"DESIGN.md §{ref}"},
+            "level_claimed": {"category": "exploration", "text": text + EXTRA.get(pid, ""), "design_ref": f"DESIGN.md §{ref} and §15.2"},
             "level_note": "sampling, not enumeration; trusted base: the simulator's model of concurrent.futures (CPython 3.12, fork), the oracle code in /verif/checks and /verif/workload/objectives.py, NumPy's RandomState; assumes deterministic side-effect-free objectives",
             "technique": G,
         })
@@ -55,7 +74,7 @@ def main():
         "engines": [
             {"name": "engine-G", "path": "checks/engine_g.py", "serves_properties": [p for p, v in sorted(CHECKS.items()) if v[0] == "G"], "kind_free_text": "one real optimize() run under the deterministic simulator (sim/kernel.py scheduler, sim/rng.py RNG seam, sim/pools.py pool model, sim/faults.py fault plan)"},
             {"name": "engine-P", "path": "checks/engine_p.py", "serves_properties": [p for p, v in sorted(CHECKS.items()) if v[0] == "P"], "kind_free_text": "paired / sequenced optimize() calls under one simulator with labelled entropy"},
-            {"name": "engine-S", "path": "checks/engine_s.py", "serves_properties": [p for p, v in sorted(CHECKS.items()) if v[0].startswith("S")], "kind_free_text": "scripted optimizer (real base-class loop) driven by the simulator: stop rule, HyperTuner, Multitask"},
+            {"name": "engine-S", "path": "workload/scripted.py", "serves_properties": [p for p, v in sorted(CHECKS.items()) if v[0].startswith("S")], "kind_free_text": "scripted optimizer (real base-class loop) driven by the simulator: stop rule, HyperTuner, Multitask"},
         ],
         "checks": checks,
         "not_applicable": na,
